@@ -90,24 +90,54 @@ func solveOne(o *Obligation, dir string, timeoutS, seed int, needTwo bool) {
 	}
 	ctx, cancel := context.WithCancel(context.Background())
 	defer cancel()
-	ch := make(chan solveResult, len(solvers))
-	for _, sc := range solvers {
-		sc := sc
-		go func() { ch <- runSolver(ctx, sc, timeoutS, seed, file) }()
+	// Portfolio: every solver with the run's seed; if nobody has answered after a short while the
+	// same solvers are started again with two more seeds (quantifier instantiation order is seed
+	// sensitive: an obligation one seed proves in 0.1 s another seed can miss within the budget).
+	// For two-solver agreement only distinct solver names count.
+	extraSeeds := []int{seed + 1, seed + 2}
+	ch := make(chan solveResult, len(solvers)*(1+len(extraSeeds)))
+	outstanding := 0
+	launch := func(sd int) {
+		for _, sc := range solvers {
+			sc := sc
+			outstanding++
+			go func() { ch <- runSolver(ctx, sc, timeoutS, sd, file) }()
+		}
+	}
+	launch(seed)
+	stage2 := time.After(1500 * time.Millisecond)
+	if o.Expect == "sat" {
+		stage2 = nil // covers: one seed is enough
 	}
 	var all []solveResult
 	agree := 0
+	agreed := map[string]bool{}
 	var decided *solveResult
-	for range solvers {
-		r := <-ch
+loop:
+	for outstanding > 0 {
+		var r solveResult
+		select {
+		case r = <-ch:
+			outstanding--
+		case <-stage2:
+			stage2 = nil
+			for _, sd := range extraSeeds {
+				launch(sd)
+			}
+			continue
+		}
 		all = append(all, r)
 		if r.result == "unsat" || r.result == "sat" {
 			if decided == nil {
 				rr := r
 				decided = &rr
 				agree = 1
+				agreed[r.solver] = true
 			} else if decided.result == r.result {
-				agree++
+				if !agreed[r.solver] {
+					agreed[r.solver] = true
+					agree++
+				}
 			} else {
 				// solvers disagree: report as undecided
 				o.Result = "disagree"
@@ -115,7 +145,7 @@ func solveOne(o *Obligation, dir string, timeoutS, seed int, needTwo bool) {
 				return
 			}
 			if !needTwo || agree >= 2 {
-				break
+				break loop
 			}
 		}
 	}
